@@ -22,7 +22,22 @@ What runs (every invocation, against the tree in VERIF_REPO):
   * CONDITIONAL FIT: after every fit, per ConditionalDistribution: template parameters before/after,
     per-interval parameters re-fitted independently on a deep copy of the *old* template, identity
     pattern of `distributions_per_interval` -> `condfit` model.
-  * deterministic entry points are evaluated twice and must agree (array_equal, NaN = NaN).
+  * deterministic entry points are evaluated twice and must agree (array_equal, NaN = NaN); for contours every
+    attribute of the object, for plots also the label / title / legend texts. The roots are hashed a third time
+    BETWEEN the two evaluations (a change the second evaluation undoes is still a change).
+  * besides models, caller arrays and contours the roots are: the caller's semantics dict, fit descriptions and
+    par_rename dict (`aux`), the description list a model was built from (`desc`), and virocon's own mutable
+    state outside of model objects - module globals, class attributes, default argument values (`global`,
+    see module_state()). An evaluation that changes any of them fails (caller_argument_unchanged,
+    model_description_unchanged, module_state_unchanged).
+  * input guises: float / int / list / view / strided / Fortran / non-positive / READ-ONLY arrays (numpy refuses
+    any in-place write: "assignment destination is read-only" from an op that was handed a read-only array is a
+    failure of caller_array_unchanged even when no value would have changed), tuples of tuples, 0-d arrays;
+    probabilities and conditioning values as list / tuple / int / read-only / scalar.
+  * custom models draw their families from ALL distribution classes (Weibull, LogNormal, Normal,
+    LogNormalNormFit, ExponentiatedWeibull, GeneralizedGamma, VonMises, a ScipyDistribution subclass) and all
+    three interval slicers; TransformedModel: pdf, cdf, empirical_cdf(sample=), marginal_icdf(random_state=),
+    seeded and unseeded draw_sample, conditional_cdf/icdf/sample, fit.
 """
 import copy
 import functools
@@ -2107,7 +2122,8 @@ def shrink_failures(ck):
         ops, k = case["ops"], case["failing_step"]
         need = {k}
         op = ops[k]
-        if op["op"] in ("design", "save") or (op["op"] == "plot" and op["fn"] == "plot_2D_contour"):
+        if op["op"] in ("design", "save") or (op["op"] == "plot" and op["fn"] == "plot_2D_contour") or (
+                op["op"] == "misc" and op.get("which") == "cell_averaged_joint_pdf"):
             prev = [j for j in range(k) if ops[j]["op"] == "contour"]
             need.update(prev[-3:])
         if op["op"] == "plot" and op["fn"] == "plot_histograms_of_interval_distributions":
@@ -2157,8 +2173,10 @@ def main(ck):
     n_seq = 2000 if thorough else 120
     max_len = 12 if thorough else 6
     ck.rule = (
-        "corpus sequences (two models from the same getter, fit one between two uses of the other; in-place scenarios), "
-        "then %d random op sequences of length <= %d over 2-3 live models (six predefined getters, TransformedModel, custom 2-D/3-D); "
+        "corpus sequences (two models from the same getter, fit one between two uses of the other; in-place scenarios; every "
+        "TransformedModel entry point; the families/slicers the getters do not use; array-valued options; utility entry points), "
+        "then %d random op sequences of length <= %d over 2-3 live models (six predefined getters, TransformedModel, custom 2-D/3-D "
+        "over all 8 distribution families and 3 slicers); "
         "then getter pairs for each of the six getters; a sequence is non-trivial if it has >= 2 live models and >= 2 ops that "
         "ran without exception; distinct by SHA1 of the case" % (n_seq, max_len)
     )
@@ -2175,6 +2193,13 @@ def main(ck):
         "repeat_identical": "the theorem needs 'the result reads only the reachable sub-store'; that the entry points use no hidden "
                             "global state is observed by evaluating twice (array_equal)",
         "getter_disjointness": "freshness/disjointness of getter results is measured on id()-graphs of actual results",
+        "caller_arguments_and_module_state": "that plot/save/contour functions leave the caller's semantics / par_rename / limits / "
+                                             "levels / design-condition arguments and virocon's module-level state (globals, class "
+                                             "attributes, default argument values) unchanged is observed per executed op (deep hash "
+                                             "before / between / after the two evaluations); the heap theorems cover it only through "
+                                             "the measured footprint",
+        "read_only_probe": "an in-place write that would not change any value is only visible for the ops that were handed a "
+                           "read-only array (numpy raises)",
     }
     cases = corpus_cases() + make_cases(ck.seed, n_seq, max_len, allow_cdf_every=(4 if thorough else 3))
     reps = 12 if thorough else 2
